@@ -172,9 +172,9 @@ Definition ex_dcf (n : N) : option N :=
 Definition ex_rackf (n : N) : option N :=
   match n with 6%N | 7%N => Some 2%N | _ => Some 1%N end.
 Definition ex_raw : ring N :=
-  map (fun e => (fst e, N.of_nat (snd e)))
+  map (fun e : Z * Z => (fst e, Z.to_N (snd e)))
   [(50,1);(250,1);(400,1);(100,2);(600,2);(900,2);(300,3);(650,3);(700,3);(350,4);(550,4);
-   (150,5);(750,5);(200,6);(450,6);(500,7);(800,7)]%nat.
+   (150,5);(750,5);(200,6);(450,6);(500,7);(800,7)].
 Definition ex_g := sort_ring ex_raw.
 
 Example C04_ex_hyps : sorted_strict ex_g /\ nts_keys_ok (NTS [(1%N, 3%nat); (2%N, 3%nat)]).
